@@ -547,3 +547,24 @@ Proof.
   split; [exact FlatEx.ex_valid|exact FlatEx.ex_value].
 Qed.
 Print Assumptions C15_extract_total_argv_flat_nonvacuous.
+
+(** ... and below flatten nodes: the same statement for structs with flattened structs (the update command in closed form) *)
+Theorem C15_update_unoccurring_untouched_flat : forall d bin toks vs vs' f,
+  flat_nodes (d_nodes d) = true -> In f (leaves (d_nodes d)) -> bf_default f = [] ->
+  valid (with_bin (derive_cmd_for_update d) bin) = true ->
+  (forall a, In a (c_args (builtu d bin)) -> a_id a = f_id f -> ~ occurs (builtu d bin) toks a) ->
+  derived_update d vs (bin :: toks) = PValue vs' ->
+  field_at (d_nodes d) vs' (f_id f) = field_at (d_nodes d) vs (f_id f).
+Proof. exact update_unoccurring_untouched_flat. Qed.
+Print Assumptions C15_update_unoccurring_untouched_flat.
+
+(** Non-vacuity: [{a: "x", inner: {b: 3, c: true}, opt: None}] updated from [--aa y]: [b] (inside the flattened struct) is
+    named by no token and keeps 3 (the flag [c] is reset, the optional flatten materialised: the recorded findings). *)
+Theorem C15_update_unoccurring_flat_nonvacuous :
+  (forall a, In a (c_args (builtu FlatEx.d b_prog)) -> a_id a = f_id FlatEx.fb -> ~ occurs (builtu FlatEx.d b_prog) UpdateFlatEx.toks a)
+  /\ flat_nodes (d_nodes FlatEx.d) = true /\ In FlatEx.fb (leaves (d_nodes FlatEx.d)) /\ bf_default FlatEx.fb = []
+  /\ valid (with_bin (derive_cmd_for_update FlatEx.d) b_prog) = true
+  /\ derived_update FlatEx.d UpdateFlatEx.v0 (b_prog :: UpdateFlatEx.toks) = PValue UpdateFlatEx.v1
+  /\ field_at (d_nodes FlatEx.d) UpdateFlatEx.v1 (f_id FlatEx.fb) = Some (DOne (SvInt 3%Z)).
+Proof. split; [exact UpdateFlatEx.ex_unnamed|exact UpdateFlatEx.ex_update_flat]. Qed.
+Print Assumptions C15_update_unoccurring_flat_nonvacuous.
